@@ -12,15 +12,18 @@ regenerates from the source, so a changed constant flows into the model.
 -/
 import PyAbel.Model.Scalar
 import PyAbel.Model.Dasch
+import PyAbel.Model.Linalg
 
 namespace PyAbel
 
 class HasRpow (α : Type) where rpow : α → α → α
 class HasCosh (α : Type) where cosh : α → α
 class HasAcosh (α : Type) where acosh : α → α
+class HasAsin (α : Type) where asin : α → α
 instance : HasRpow Float := ⟨Float.pow⟩
 instance : HasCosh Float := ⟨Float.cosh⟩
 instance : HasAcosh Float := ⟨Float.acosh⟩
+instance : HasAsin Float := ⟨Float.asin⟩
 
 namespace HansenLaw
 
@@ -158,4 +161,34 @@ def transform (forward corr : Bool) (n : Nat) (dr : α) (im : Nat → α) : Nat 
 
 end
 end Direct
+namespace Bordas
+
+/-
+`abel/onion_bordas.py` onion_bordas_transform with `shift_grid=False` (the half-pixel resampling of `shift_grid=True` is
+scipy.ndimage.shift, outside the model), one row of `w ≥ 2` samples.
+
+The column loop peels the flipped row from the outside: pass `c` takes the pivot `rest[c−1]`, scales it by
+`1/val1[idist, idist]` (`idist = w − c`) and subtracts `pivot·val1[i, idist]` from every pixel inside.  In the original pixel
+order this is back substitution for the upper-triangular system `V y = row`, `V = val1`; the output is
+`y_k / ((k + 1)·2 dr)` for `k ≥ 1`, and pixel 0 repeats pixel 1 (the first peeled column is dropped).  The model is written in
+that form (so it runs in O(w²) and inherits the solve's theorems); the correspondence run compares it with the loop as coded.
+-/
+section
+variable {α : Type} [Zero α] [Add α] [Sub α] [Mul α] [Div α] [NatCast α] [OfNat α 2] [HasAsin α]
+
+/-- `_init_abel`: `val1[ii, jj] = asin((ii+1)/(jj+1)) − asin(ii/(jj+1))` for `jj ≥ ii`, else 0 -/
+def val1 (ii jj : Nat) : α :=
+  if ii ≤ jj then HasAsin.asin (((ii + 1 : Nat) : α) / ((jj + 1 : Nat) : α)) - HasAsin.asin ((ii : α) / ((jj + 1 : Nat) : α)) else 0
+
+/-- one row, for any upper-triangular weight table `v` -/
+def transformWith (v : Nat → Nat → α) (w : Nat) (dr : α) (im : Nat → α) : Nat → α := fun k =>
+  let y := backSubst v im w
+  let k' := if k = 0 then 1 else k
+  y.getD k' 0 / ((k' + 1 : Nat) : α) / ((2 : α) * dr)
+
+def transform (w : Nat) (dr : α) (im : Nat → α) : Nat → α := transformWith (val1 (α := α)) w dr im
+
+end
+end Bordas
+
 end PyAbel
